@@ -3,6 +3,6 @@ CONSTANTS
   W = @W@
   MaxTamper = @MAXT@
   Scope = "@SCOPE@"
-  Dev = @DEV@
+  DevChoices = @DEV@
 INVARIANTS TypeOK @INV@
 CHECK_DEADLOCK FALSE
